@@ -23,6 +23,7 @@ ASSUMPTIONS = ['matrix values are diagonally dominant / symmetric positive defin
                'entries of one matrix share their replica sets or their per-replica configuration sets (the regime in which C01 '
                'promises split-independence); the products that form the left-hand sides use pyerrors scalar arithmetic (C01)']
 EXHAUSTIVE = True
+REPEAT = 2      # every case is evaluated twice in the same process: the second verdict must equal the first (call-history oracle)
 CHUNK = 1
 
 FAMILIES = {
